@@ -11,7 +11,10 @@ DESIGN_REF = 'DESIGN.md section 4, C09'
 TECHNIQUE = ("property-based testing: generated trees with forever jobs (never-ending, ending "
              "before/at/after the last regular job, in the middle of the graph, nested) on a "
              "virtual-time loop; oracle = cancel requests exactly at the instant of the last "
-             "non-forever exit, phase chaining, release of successors of forever jobs that end")
+             "non-forever exit, phase chaining, release of successors of forever jobs that end, "
+             "eager start of forever members (the C12 oracle restricted to them), no body "
+             "of a forever job left in the loop after run(); second runs of the same objects "
+             "(main phase only)")
 LEVEL_TEXT = ("generated search with exact virtual-time comparison of the stop instant, the "
               "cancel requests and the end of the run")
 LEVEL_NOTE = ("trusts the trace recorder; schedulers without any non-forever member are "
